@@ -66,6 +66,8 @@ def h_factory(kind):
         if ok and key is None:
             cl.append(('zero() is identically 0', G.And([G.T(x[i] == 0) for i in range(n)])))
             cl.append(('zero() draws nothing', len(draws) == 0))
+            xz = f(n)
+            cl.append(('every call returns a fresh array (no storage shared between calls)', not (isinstance(xz, np.ndarray) and xz.buf is x.buf)))
         elif ok:
             cl.append(('exactly one draw call, on numpy\'s global generator', len(draws) == 1 and draws[0]['stream'] == 'global'))
             if len(draws) == 1 and draws[0]['stream'] == 'global':
@@ -92,6 +94,7 @@ def h_factory(kind):
                             cl.append(('laplace: mean + scale * E  (mean `mean`, variance 2 scale^2)', G.And(G.T(c0 == a), G.T(c == b))))
             # reproducible after seeding the global generator; advances it otherwise
             x2 = f(n)
+            cl.append(('every call returns a fresh array (no storage shared between calls)', not (isinstance(x2, np.ndarray) and x2.buf is x.buf)))
             np.random.seed(seed)
             x3 = f(n)
             if isinstance(x3, np.ndarray) and x3.shape == (n,):
@@ -169,6 +172,13 @@ def replay(rec):
         if not numpy.array_equal(x, x3):
             bad.append('not reproducible after np.random.seed')
         x0 = f(n)
+        xa, xb = f(nn), f(nn)
+        if numpy.shares_memory(xa, xb):
+            bad.append('two calls return arrays that share memory')
+        else:
+            xa += 1.0
+            if kind == 'zero' and (f(nn) != 0).any():
+                bad.append('zero() is no longer 0 after a returned array was modified')
         if getattr(x0, 'shape', None) != (n,):
             bad.append('f(%d) has shape %s' % (n, getattr(x0, 'shape', None)))
         if s.functions.null() != 0 or s.functions.null(x, 1) != 0:
